@@ -83,6 +83,7 @@ type flushRequest struct {
 
 func (b *BloomSearchEngine) flushWorker() {
 	defer b.wg.Done()
+	defer verifEv("worker_exit")
 
 	shuttingDown := false
 	for {
@@ -136,19 +137,23 @@ func (b *BloomSearchEngine) abortFileWriter(ctx context.Context, writer io.Write
 // CreateFile the writer is aborted and the pointer tombstoned before the
 // error is delivered, so no partial file stays visible or leaks a handle.
 func (b *BloomSearchEngine) handleFlush(ctx context.Context, flushReq flushRequest) {
+	verifEv("flush_intent", flushReq.doneChans)
 	// Once the shutdown deadline has aborted flush work, queued requests must
 	// not start any store work: a ctx-ignoring store would happily keep
 	// creating files after Stop already returned. Report the abandonment to
 	// every waiter instead (best effort — ctx is already canceled, so only
 	// ready channels receive it).
 	if err := ctx.Err(); err != nil {
+		verifEv("flush_abandon", flushReq.doneChans, err)
 		b.logger.Warn("flush abandoned: shutdown deadline expired before the flush could run",
 			"partitions", len(flushReq.partitionBuffers), "waiters", len(flushReq.doneChans))
 		sendToChannelsWithContext(ctx, flushReq.doneChans, fmt.Errorf("flush abandoned: %w", err))
 		return
 	}
 
+	verifEv("flush_begin", flushReq.doneChans)
 	if len(flushReq.partitionBuffers) == 0 {
+		verifEv("flush_done", flushReq.doneChans)
 		sendToChannelsWithContext(ctx, flushReq.doneChans, nil)
 		return
 	}
@@ -164,6 +169,7 @@ func (b *BloomSearchEngine) handleFlush(ctx context.Context, flushReq flushReque
 		// Report to the logger as well as the done channels: async ingesters
 		// with nil done channels would otherwise never see flush failures.
 		b.logger.Warn("flush failed to create file", "error", err)
+		verifEv("flush_done", flushReq.doneChans, err)
 		sendToChannelsWithContext(ctx, flushReq.doneChans, fmt.Errorf("failed to create file: %w", err))
 		return
 	}
@@ -171,6 +177,7 @@ func (b *BloomSearchEngine) handleFlush(ctx context.Context, flushReq flushReque
 	// fail aborts the partial file and reports err to every waiter.
 	fail := func(err error, closeAttempted bool) {
 		b.abortFileWriter(ctx, writer, filePointerBytes, closeAttempted)
+		verifEv("flush_done", flushReq.doneChans, err)
 		sendToChannelsWithContext(ctx, flushReq.doneChans, err)
 	}
 
@@ -274,9 +281,11 @@ func (b *BloomSearchEngine) handleFlush(ctx context.Context, flushReq flushReque
 		// referenced; tombstone the orphan. The writer is already closed, so
 		// no abort.
 		b.dataStore.TombstoneFile(ctx, filePointerBytes)
+		verifEv("flush_done", flushReq.doneChans, err)
 		sendToChannelsWithContext(ctx, flushReq.doneChans, fmt.Errorf("failed to store file metadata: %w", err))
 		return
 	}
 
+	verifEv("flush_done", flushReq.doneChans)
 	sendToChannelsWithContext(ctx, flushReq.doneChans, nil)
 }
